@@ -7,6 +7,7 @@ import (
 	"context"
 	"fmt"
 	"io"
+	"math/rand"
 	"net"
 	"net/http"
 	"net/url"
@@ -42,8 +43,26 @@ var (
 	hdrKinds   = []string{"nil", "string", "bytes", "func", "http"}
 	bufSizes   = []int{0, 16, 64, 4096}
 	urls       = []string{"ws://example.com/", "ws://example.com", "ws://example.com:8080/chat", "ws://example.com/a/b?x=1&y=%20z", "ws://[::1]/v6", "ws://[2001:db8::1]:9000/v6?q=1",
-		"wss://example.com/", "wss://secure.example.com:8443/p?q", "wss://[::1]/", "wss://[::1]:9443/x", "ws://10.0.0.1:81/?only=query", "ws://host-with-dash.example/ws/"}
+		"wss://example.com/", "wss://secure.example.com:8443/p?q", "wss://[::1]/", "wss://[::1]:9443/x", "ws://10.0.0.1:81/?only=query", "ws://host-with-dash.example/ws/",
+		// paths whose wire form differs from their decoded form (escapes net/url keeps, escapes it normalises, RawPath set or not), forced empty query
+		"ws://example.com/chat%20room", "ws://example.com/caf%C3%A9/ws", "ws://example.com/a%2Fb/c", "ws://example.com/what%3Fnow?really=yes", "wss://example.com/say%22hi%22",
+		"ws://example.com/p?", "ws://example.com//double//slash", "ws://example.com/a;b=c/d,e", "ws://example.com/?a=b%23c", "ws://example.com:8080/%25/%41?%3D=%26", "ws://example.com/ws/~user/(x)/a+b/a:b@c"}
 )
+
+// randURL assembles a ws/wss URL from path segments and queries in escaped and unescaped spellings.
+func randURL(rng *rand.Rand) string {
+	hosts := []string{"example.com", "example.com:8080", "[::1]", "[2001:db8::1]:9000", "10.0.0.1:81"}
+	segs := []string{"a", "chat", "%20", "%2F", "%3F", "%23", "%C3%A9", "~", "-._", "(x)", "a+b", "a:b", "@", "%25", "%41", "x%20y", "", "é", "%e2%82%ac", "!$&'*"}
+	qs := []string{"", "", "?", "?x=1", "?q=%20&r=%2F", "?a=b=c", "?%C3%A9", "?a+b"}
+	u := []string{"ws://", "wss://"}[rng.Intn(2)] + hosts[rng.Intn(len(hosts))]
+	for k := rng.Intn(4); k > 0; k-- {
+		u += "/" + segs[rng.Intn(len(segs))]
+	}
+	if rng.Intn(3) == 0 {
+		u += "/"
+	}
+	return u + qs[rng.Intn(len(qs))]
+}
 
 func extraHeader(kind string) ws.HandshakeHeader {
 	const text = "X-Client: abc\r\nCookie: k=v; k2=v2\r\n"
@@ -205,6 +224,13 @@ func trailing(c *mon.C, rbuf int, k int) []byte {
 		p[i] = byte(i*31 + 7)
 	}
 	return p
+}
+
+func pickURL(rng *rand.Rand) string {
+	if rng.Intn(3) == 0 {
+		return randURL(rng)
+	}
+	return urls[rng.Intn(len(urls))]
 }
 
 // exchange runs one Dialer.Upgrade against the scripted peer.
@@ -505,7 +531,7 @@ func subRandom() mon.Sub {
 				}
 			}
 			tk := c.Rng.Intn(len(trailLens) - 1) // the 70000-byte tail is covered by trailing-bytes
-			exchange(c, randCfg(c, false), urls[c.Rng.Intn(len(urls))], choice, tk, c.Rng.Intn(8), c.Rng.Intn(4) == 0, map[string]bool{})
+			exchange(c, randCfg(c, false), pickURL(c.Rng), choice, tk, c.Rng.Intn(8), c.Rng.Intn(4) == 0, map[string]bool{})
 		},
 	}
 }
